@@ -8,7 +8,7 @@ from hypothesis import strategies as st
 import gen
 import model as M
 import oracle
-from common import ModelRun, model_classes, cx, pipeline_guard
+from common import ModelRun, model_classes, cx, pipeline_guard, chi_floor
 from drive import Result
 
 RULE = ("Hypothesis generates a small interacting model (N<=3 modes quick, <=4 thorough), beta in [0.5,20], and a history of 3-10 container "
@@ -225,7 +225,7 @@ def execute(case, ctx):
                 continue
             if ev:
                 x = cx(v); d = direct[key][t]
-                if not abs(x - d) <= 1e-10 * (abs(d) + scale[key][t]) + 1e-14:
+                if not abs(x - d) <= 1e-10 * (abs(d) + scale[key][t]) + chi_floor(beta, N):
                     return fail("container%r%r = %r but a directly constructed TwoParticleGF gives %r" % (key, triples[t], x, d),
                                 "value-bulk" if bulk else "value")
     # tables returned by a bulk computation: a full-length table stored under key K must hold K's values
@@ -243,7 +243,7 @@ def execute(case, ctx):
                     if isinstance(v, list):
                         x = cx(table[t]); y = cx(v)
                         sc_ = beta ** 3 * ref.chi4(*key, *triples[t], return_scale=True)[1]
-                        if not abs(x - y) <= 1e-10 * (abs(y) + sc_) + 1e-14:
+                        if not abs(x - y) <= 1e-10 * (abs(y) + sc_) + chi_floor(beta, N):
                             return fail("computeAll(split=%d) returned under key %r the table value %r at %r, but the container evaluates that key to %r" % (
                                 op["split"], key, x, triples[t], y), "table-mislabelled")
             classes.append("tables-checked")
@@ -254,7 +254,7 @@ def execute(case, ctx):
             for partner, tr, what in (((j, i, k, l), (n2, n1, n3), "jikl"), ((i, j, l, k), (n1, n2, n1 + n2 - n3), "ijlk")):
                 if partner in direct and tr in triples:
                     x = direct[key][t]; y = direct[partner][triples.index(tr)]
-                    if not abs(x + y) <= 1e-8 * (abs(x) + scale[key][t]) + 1e-13:
+                    if not abs(x + y) <= 1e-8 * (abs(x) + scale[key][t]) + 2 * chi_floor(beta, N):
                         return fail("exchange relation (%s): chi%r%r = %r, chi%r%r = %r" % (what, key, triples[t], x, partner, tr, y), "exchange")
     nontrivial = "refill-different-set" in classes or "alias-evaluated" in classes or "on-demand-after-bulk" in classes
     return Result("ok", sorted(set(classes)), nontrivial)
